@@ -115,6 +115,29 @@ def r13_2(ck: Check) -> None:
     ck.expect_count("R13.2", "set_coinstate call sites", n, 5)
 
 
+def r13_6(ck: Check, rule: str = "R13.6") -> None:
+    """who may serve a state as 'not validated': only the bulk-download branch of the relay handler. Every other caller (start-up, the
+    miner, the roll-back itself) records the state as the one to roll back to."""
+    RP_H = "skepticoin.networking.remote_peer.ConnectedRemotePeer.handle_block_received"
+    n = 0
+    for fi in functions_mentioning(ck, "set_coinstate"):
+        s = ck.summ(fi.qualname, 0)
+        for e in s.events:
+            if e.kind != "call" or e.chain or CM + ".set_coinstate" not in e.targets:
+                continue
+            n += 1
+            args = e.term[2]
+            flag = args[1] if len(args) > 1 else dict(e.term[3]).get("validated", C(True))
+            construct = "%s: set_coinstate(%s) records the state as validated%s" % (
+                short(fi.qualname), show(args[0])[:50] if args else "?", " (except in the bulk-download branch)" if fi.qualname == RP_H else "")
+            if flag == C(True) or (fi.qualname == RP_H and flag == C(False)):
+                ck.ok(rule, construct, "", e.loc)
+            else:
+                ck.violated(rule, construct, "validated=%s: last_known_valid_coinstate is not updated, so a later rejected block cannot be rolled "
+                            "back to this state" % show(flag), e.loc)
+    ck.expect_count(rule, "set_coinstate call sites", n, 5)
+
+
 def r13_3(ck: Check) -> None:
     q = CM + ".set_coinstate"
     summ = ck.summ(q, 0)
@@ -198,6 +221,7 @@ def check(ck: Check) -> None:
     ck.run("R13.2", "single writers (typed who-may-write, whole repository)", lambda: r13_2(ck))
     ck.run("R13.3", "eviction on every head change", lambda: r13_3(ck))
     ck.run("R13.4", "duplicate suppression before admission", lambda: r13_4(ck))
+    ck.run("R13.6", "only bulk download serves an unvalidated state", lambda: r13_6(ck))
     from .common import rule_eq
     ck.run("R13.5", "`transaction in pool` and reference clashes compare by content", lambda: (
         rule_eq(ck, "R13.5", "skepticoin.datatypes.Transaction", ["inputs", "outputs"], "pool membership compares whole transactions"),
